@@ -10,6 +10,7 @@
 -/
 import RapidProofs.PruneProp
 import RapidProofs.PruneCustom
+import RapidProofs.TranslatedEq
 
 namespace Rapid.C04
 
@@ -70,6 +71,13 @@ theorem repeat_loop_replays_pruned (c : RCfg) (step : Val → Prog) (hthr : 0 < 
   intro src ts xs hg ho
   exact ps_repeatLoop c step hthr hstep hpure hshape k hk fuel fuel (Nat.le_refl _) {} {} acc ⟨rfl, rfl⟩
     (fun h => by cases h) (fun _ => rfl) src ts xs hg ho
+
+/-- the PRNG step of /repo (`jsf64ctx.rand`, translated from the source on every run) is the
+    model's: value and new state, for every state -/
+theorem source_jsf_rand (a b c d : UInt64) :
+    Translated.jsfRand a b c d =
+      ((Jsf.rand ⟨a, b, c, d⟩).1, ((Jsf.rand ⟨a, b, c, d⟩).2.a, (Jsf.rand ⟨a, b, c, d⟩).2.b, (Jsf.rand ⟨a, b, c, d⟩).2.c, (Jsf.rand ⟨a, b, c, d⟩).2.d)) :=
+  tr_jsfRand a b c d
 
 /-- a recording made from the PRNG replays from a buffer (the PRNG never overruns) -/
 theorem words_are_masked (s s' : Src) (n : Nat) (u : UInt64) (h : s.next n = some (u, s')) : mask n u = u :=
